@@ -38,6 +38,15 @@ def worldOp (st : DState) (fields : List String) : DState × Outcome :=
       let esdt' := es.foldl (fun f (t, _, amt) => upd f t amt) acc.esdt
       ({ st with world := { w with accts := upd w.accts a { egld := e, esdt := esdt' } } }, .okPlain)
     | _, _, _ => (st, .fail)
+  | ["roles", a, tok, rs] =>
+    match ofHex a with
+    | some a =>
+      let names := rs.splitOn ","
+      let w := st.world
+      let t := strBytes tok
+      ({ st with world := { w with mintRole := upd w.mintRole (a, t) (names.contains "ESDTRoleLocalMint"),
+                                   burnRole := upd w.burnRole (a, t) (names.contains "ESDTRoleLocalBurn") } }, .okPlain)
+    | none => (st, .fail)
   | ["time", n] =>
     match n.toNat? with
     | some n => ({ st with world := { st.world with now := n } }, .okPlain)
@@ -58,6 +67,22 @@ def worldOp (st : DState) (fields : List String) : DState × Outcome :=
     match ofHex dst, parseArgs args with
     | some d, some args => (st, World.query C st.world d func args)
     | _, _ => (st, .fail)
+  | ["deliver", id, "real"] =>
+    match id.toNat? with
+    | some id => let (w, o) := World.deliver C st.world id .real; ({ st with world := w }, o)
+    | none => (st, .fail)
+  | ["deliver", id, "fail"] =>
+    match id.toNat? with
+    | some id => let (w, o) := World.deliver C st.world id .fail; ({ st with world := w }, o)
+    | none => (st, .fail)
+  | ["deliver", id, "ok", vals] =>
+    match id.toNat?, parseArgs vals with
+    | some id, some vals => let (w, o) := World.deliver C st.world id (.ok vals); ({ st with world := w }, o)
+    | _, _ => (st, .fail)
+  | ["cb", id] =>
+    match id.toNat? with
+    | some id => let (w, o) := World.callback C st.world id; ({ st with world := w }, o)
+    | none => (st, .fail)
   | ["bal", a, tok] =>
     match ofHex a with
     | some a =>
